@@ -163,6 +163,7 @@ fn main() {
                 "C07" => props::c07::worker(&args[2..]),
                 "C13" => props::c13::worker(&args[2..]),
                 "C14" => props::c14::worker(&args[2..]),
+                "C18" => props::c18::worker(&args[2..]),
                 other => {
                     eprintln!("unknown worker {}", other);
                     std::process::exit(2)
